@@ -199,6 +199,16 @@ func checkC14(p *Prog, rp *Report) {
 						dataProblems = append(dataProblems, "the loader reads from the data tar stream before handing it to the caller ("+ef+")")
 					}
 				}
+				// once the stream over the data member exists, the member underneath must not be moved
+				opened := false
+				for _, ef := range o.effects {
+					if (strings.HasPrefix(ef, "ctor:") || strings.HasPrefix(ef, "tarnew:")) && strings.Contains(ef, "data(data.tar") {
+						opened = true
+					}
+					if opened && strings.HasPrefix(ef, "seek:data(data.tar") {
+						dataProblems = append(dataProblems, "the data member is repositioned ("+ef+") after the stream handed to the caller was opened over it: the decompressor has buffered part of the member and continues from the wrong place")
+					}
+				}
 				if o.controlExt != "tar"+ce || o.dataExt != "tar"+de {
 					extProblems = append(extProblems, fmt.Sprintf("control.tar%s / data.tar%s give ControlExt %q, DataExt %q", ce, de, o.controlExt, o.dataExt))
 				}
